@@ -18,7 +18,7 @@ BC = ["and", "affineGeq", "affineLeq", "alldifferent", "countEq", "elementIv", "
 
 
 # proof files whose authors have reported completion (in-progress files are not imported)
-FINISHED = ["Affine", "AffineLeq", "Dummy", "Element", "MinMax", "Counting", "CountEq", "Lex", "Scc", "NoSubCycle", "AlldifferentReg", "GccReg"]
+FINISHED = ["Affine", "AffineLeq", "Dummy", "Element", "MinMax", "Counting", "CountEq", "Lex", "Scc", "NoSubCycle", "AlldifferentReg", "GccReg", "ExactOfSupport", "SupportCertProofs"]
 
 
 def available():
